@@ -28,9 +28,9 @@ def close_seq(a, b, **kw):
     return len(a) == len(b) and all(close(x, y, **kw) for x, y in zip(a, b))
 
 
-def gen_gauss(rng):
+def gen_gauss(rng, big=True):
     return dict(sigma=rng.choice([dyadic(rng, 0.125, 4, 3) or 1.0, 0.3, 2.7]), limit=rng.choice([3.0, 2.0, 1.5, dyadic(rng, 0.5, 4, 2) or 1.0]),
-                center=rng.choice([0.0, dyadic(rng, -4, 4, 3), 0.1, -7.3]), n=rng.choice([1, 2, 3, 4, 5, 7, 8, 11, rng.randint(1, 16)]),
+                center=rng.choice([0.0, dyadic(rng, -4, 4, 3), 0.1, -7.3]), n=rng.choice([1, 2, 3, 4, 5, 7, 8, 11, rng.randint(1, 16)]) if big else rng.randint(1, 4),
                 normalize=rng.choice(["intensity", "intensity", "amplitude"]))
 
 
@@ -122,6 +122,11 @@ class C36(Property):
             b = [dyadic(rng, 0, 2, 3) for _ in range(rng.randint(1, 4))]
             add(f"outer {list_s(a, rat_s)} {list_s(b, rat_s)}", "MultidimensionalDistribution.weights", dict(a=a, b=b),
                 lambda: ["ok", D.MultidimensionalDistribution([D.from_values(a, np.array(a)), D.from_values(b, np.array(b))]).weights.tolist()])
+        for _ in range(ctx.n(60, 800)):
+            fs = [[dyadic(rng, 0, 2, 3) for _ in range(rng.randint(1, 3))] for _ in range(rng.randint(2, 4))]
+            add("outern " + ";".join(list_s(f, rat_s) for f in fs), "MultidimensionalDistribution.weights (n factors)", dict(factors=fs),
+                lambda: (lambda w: ["ok", list(w.shape), w.ravel().tolist()])(
+                    np.asarray(D.MultidimensionalDistribution([D.from_values(f, np.array(f)) for f in fs]).weights)))
         for bad in ["uniform 0 1 5", "gaussian 1 3 0 x intensity", "divide 1,2 1,1 -1,3", "frobnicate"]:
             lines.append(bad)
             tags.append(("malformed request rejected", bad, "bad-op"))
@@ -139,6 +144,8 @@ class C36(Property):
                 ok = close_seq(rats(t[1]), impl[1], rel=1e-12, ab=1e-12) and close_seq(ws, impl[2], rel=1e-11, ab=1e-300)
             elif name in ("uniform", "__neg__"):
                 ok = close_seq(rats(t[1]), impl[1]) and close_seq(rats(t[2]), impl[2])
+            elif name.endswith("(n factors)"):
+                ok = [int(x) for x in t[1].split(",")] == impl[1] and close_seq(rats(t[2]), impl[2])
             elif name.startswith("divide"):
                 mv, mw = ratss(t[1]), ratss(t[2])
                 ok = (len(mv) == len(impl[1]) and all(close_seq(a, b) for a, b in zip(mv, impl[1]))
@@ -198,14 +205,20 @@ class C36(Property):
                     ctx.violation(f"gaussian-normalisation-wrong:{c['normalize']}", c, dict(axis=i, total=total))
                 if not np.allclose(w, w[::-1], rtol=1e-12, atol=0):
                     ctx.violation("gaussian-weights-not-symmetric", c, dict(axis=i))
-            if dims == 2:
+            if dims >= 2:
                 W = np.asarray(md.weights, float)
                 V = np.asarray(md.values, float)
-                w0, w1 = (np.asarray(f.weights, float) for f in facs)
-                if W.shape != (c["n"][0], c["n"][1]) or not np.allclose(W, w0[:, None] * w1[None, :], rtol=1e-14, atol=0):
+                ws = [np.asarray(f.weights, float) for f in facs]
+                want = ws[0]
+                for w in ws[1:]:
+                    want = np.multiply.outer(want, w)
+                shape = tuple(c["n"])
+                if W.shape != shape or tuple(md.shape) != shape:
+                    ctx.violation(f"multidimensional-weights-shape-wrong:dims={dims}", c, dict(shape=list(W.shape), want=list(shape)))
+                elif not np.allclose(W, want, rtol=1e-14, atol=0):
                     ctx.violation("multidimensional-weights-not-outer-product", c, dict(shape=list(W.shape)))
-                if V.shape != (c["n"][0], c["n"][1], 2) or not (np.all(V[:, :, 0] == np.asarray(facs[0].values)[:, None])
-                                                                  and np.all(V[:, :, 1] == np.asarray(facs[1].values)[None, :])):
+                grids = np.meshgrid(*[np.asarray(f.values) for f in facs], indexing="ij")
+                if V.shape != shape + (dims,) or not all(np.array_equal(V[..., k], grids[k]) for k in range(dims)):
                     ctx.violation("multidimensional-values-not-meshgrid", c, dict(shape=list(V.shape)))
                 total = float((W ** 2).sum()) if c["normalize"] == "intensity" else float(W.sum())
                 if abs(total - 1.0) > 1e-12:
@@ -248,8 +261,8 @@ class C36(Property):
             c = dict(gen_uniform(rng), kind="uniform")
             n = c["n"]
         else:
-            dims = rng.choice([1, 1, 2])
-            gs = [gen_gauss(rng) for _ in range(dims)]
+            dims = rng.choice([1, 1, 2, 2, 3, 4])
+            gs = [gen_gauss(rng, big=dims <= 2) for _ in range(dims)]
             c = dict(kind="gaussian", dims=dims, sigma=[g["sigma"] for g in gs], limit=[g["limit"] for g in gs],
                      center=[g["center"] for g in gs], n=[g["n"] for g in gs], normalize=gs[0]["normalize"])
             n = c["n"][0]
